@@ -34,7 +34,7 @@ CASES = {
         ("octets handed out differ from the payload (lcp)", lambda e: e.get("ev") == "ret" and e.get("op") == "read" and e.get("res") == "ok" and e.get("n", 0) > 0, bump("lcp", -1)),
         ("a successful send reported with another status", lambda e: e.get("ev") == "ret" and e.get("op") == "send" and e.get("res") == "ok", bump("status")),
         ("a release of octets by the peer removed from the log", lambda e: e.get("ev") == "rel", DROP),
-        ("an intact read turned into an error", lambda e: e.get("ev") == "ret" and e.get("op") == "read" and e.get("res") == "ok", setv("res", "err")),
+        ("an intact read turned into an error", lambda e: e.get("ev") == "ret" and e.get("op") == "read" and e.get("res") == "ok" and e.get("_fk") == "none", setv("res", "err")),
     ]),
     "loop": ("C09", "Trace_SendLoop", [
         ("a hop dialled another port", lambda e: e.get("ev") == "hop", lambda e: setpath(["dial", "port"], e["dial"]["port"] + 1)(e)),
@@ -117,6 +117,12 @@ def main():
         try:
             path = sample_trace(eng, pid, runner)
             events = [json.loads(l) for l in open(path) if l.strip()]
+            # (in memory only: the fault kind of the scenario an event belongs to, so that "intact" can be asked for)
+            cur = None
+            for e in events:
+                if e.get("ev") == "reset" and isinstance(e.get("s"), dict):
+                    cur = e["s"].get("faultKind")
+                e["_fk"] = cur
             viol, consumed, stuck = eng.validate_trace(tspec, path)
             base_ok = (consumed == len(events)) and not [v for v in viol if not v["property"].startswith("X-")]
             results.append({"runner": runner, "trace_spec": tspec, "events": len(events), "unchanged_trace_accepted": base_ok})
@@ -130,7 +136,7 @@ def main():
                 new = mut(events[i])
                 evs = events[:i] + ([new] if new is not None else []) + events[i + 1:]
                 p2 = path + ".corrupt"
-                open(p2, "w").write("\n".join(json.dumps(e) for e in evs) + "\n")
+                open(p2, "w").write("\n".join(json.dumps({k: v for k, v in e.items() if not k.startswith("_")}) for e in evs) + "\n")
                 try:
                     v2, c2, stuck2 = eng.validate_trace(tspec, p2)
                     rejected = bool([v for v in v2 if not v["property"].startswith("X-")]) or c2 != len(evs)
